@@ -1052,4 +1052,21 @@ theorem rabbit_stop_clears (s : S) (cid : Nat) (now : Int) (inHand : List String
   have : (inHand.any fun i => e.2.2.id == i) = true := List.any_eq_true.mpr ⟨_, hin, by simp⟩
   simp [this] at hn
 
+/-- the hand-over that a stop cancels: `consume()` has taken the message out of the local queue, the cancellation lands
+    before the runner receives it (inside the middleware wrapper's `after_consume` signal) -/
+def cancelledHandover (s : S) (cid : Nat) : S :=
+  match s.consumers.find? (·.1 == cid) with
+  | some (_, c) => setCons s cid { c with loc := c.loc.drop 1 }
+  | none => s
+
+/-- `rabbit_cancelled_handover_witness` (F26): after a cancelled hand-over the stop sequence — with nothing in the runner's
+    hand — leaves the message unacknowledged under the stopped consumer (the hypothesis of `rabbit_stop_clears` fails: the
+    message is neither in the local queue nor in hand); nothing is lost at the server, but it stays in flight -/
+theorem rabbit_cancelled_handover_witness :
+    let m : Msg := { id := "a", topic := "t", prio := 5, payload := "", params := {} }
+    let s : S := { unacked := [(0, .main, m)], consumers := [(0, { cat := .main, loc := [m] })] }
+    (stopWorker (cancelledHandover s 0) 0 0 []).unacked.map (·.2.2.id) = ["a"] ∧
+    (stopWorker s 0 0 []).unacked = [] ∧ (stopWorker s 0 0 []).main.map (·.id) = ["a"] := by
+  decide
+
 end Repid.RabbitProofs
